@@ -325,6 +325,7 @@ var skews = []time.Duration{0, 0, time.Second, 5 * time.Second, 90 * time.Second
 
 type roundOpts struct {
 	gen, ver   int
+	twin       int // second generator of the same round (-1 = none)
 	cold       bool
 	skew       time.Duration
 	jsonCodec  bool
@@ -340,8 +341,11 @@ var failOps = []string{"", "multiread", "multidelete", "read", "write"}
 
 func (g *G) opRound(st sim.Step) {
 	nm := len(g.W.Miners)
-	o := roundOpts{gen: st.A % nm}
+	o := roundOpts{gen: st.A % nm, twin: -1}
 	o.ver = (o.gen + 1 + int(st.Int(0, 0))%(nm-1)) % nm
+	if k := st.Int(7, 0); k > 0 && nm >= 3 {
+		o.twin = (o.gen + int(k)) % nm
+	}
 	fl := st.Int(1, 0)
 	o.cold = fl&1 != 0
 	o.jsonCodec = fl&4 != 0
@@ -400,13 +404,54 @@ func (g *G) violate(oracle, sig, detail string) {
 	g.Tr.Violate(&sim.Violation{Prop: prop, Oracle: oracle, Sig: prop + "/" + sig, Detail: detail})
 }
 
-func (g *G) round(o roundOpts) {
-	w := g.W
-	rn := g.head.Round + 1
-	ctx := w.Ctx
+// cand is one generated block on its way through the round.
+type cand struct {
+	gen       int
+	b, sentB  *block.Block // generator's object / the object handed to the network
+	nb        *block.Block // verifier's decoded copy
+	offenders []string
+	blockViol bool
+	ok        bool // verified and acceptable
+}
 
-	// ---------------- generator ----------------
-	mc := g.become(w.C, o.gen)
+func (g *G) round(o roundOpts) {
+	rn := g.head.Round + 1
+	c1 := g.generate(o, rn, o.gen)
+	var c2 *cand
+	if o.twin >= 0 && o.twin != o.gen && o.twin != o.ver {
+		// a second generator of the same round builds its own block from the same pool
+		g.Tr.Fault("second_generator_same_round")
+		o2 := o
+		o2.slowAt, o2.failN, o2.roundFault = 0, 0, 0
+		c2 = g.generate(o2, rn, o.twin)
+	}
+	first := true
+	for _, c := range []*cand{c1, c2} {
+		if c == nil {
+			continue
+		}
+		ov := o
+		if !first {
+			ov.skew, ov.cold, ov.verDeadline = 0, false, false
+		}
+		first = false
+		g.verify(ov, rn, c)
+	}
+	// the sim's "consensus": the first acceptable block of the round is notarized
+	for _, c := range []*cand{c1, c2} {
+		if c != nil && c.ok {
+			g.adopt(o, rn, c)
+			break
+		}
+	}
+}
+
+// generate runs the shipped generator as miner gen and applies the statement's
+// block oracles to the block as it would be received.
+func (g *G) generate(o roundOpts, rn int64, gen int) *cand {
+	w := g.W
+	ctx := w.Ctx
+	mc := g.become(w.C, gen)
 	mr := g.roundOn(mc, rn)
 	mc.SetCurrentRound(rn)
 	w.Reg.BeginTxn(nil)
@@ -425,20 +470,20 @@ func (g *G) round(o roundOpts) {
 	g.poolDiff(keysBefore)
 	if err != nil || b == nil {
 		g.genErrs++
-		g.Tr.Event("round %d gen=%d pool=%d: no block: %s", rn, o.gen, poolBefore, errCode(err))
+		g.Tr.Event("round %d gen=%d pool=%d: no block: %s", rn, gen, poolBefore, errCode(err))
 		g.Tr.Probe("gen_no_block:" + errCode(err))
 		g.Tr.Outcome("round/no-block")
-		return
+		return nil
 	}
 	nClient, nBuiltin := 0, 0
 	for _, t := range b.Txns {
-		if isBuiltinName(fnOf(t)) && t.PublicKey == w.Miners[o.gen].PK {
+		if isBuiltinName(fnOf(t)) && t.PublicKey == w.Miners[gen].PK {
 			nBuiltin++
 		} else {
 			nClient++
 		}
 	}
-	g.Tr.Event("round %d gen=%d pool=%d: block txns=%d client=%d builtin=%d root=%x changes=%d", rn, o.gen, poolBefore, len(b.Txns), nClient, nBuiltin, short(b.ClientStateHash), b.StateChangesCount)
+	g.Tr.Event("round %d gen=%d pool=%d: block txns=%d client=%d builtin=%d root=%x changes=%d", rn, gen, poolBefore, len(b.Txns), nClient, nBuiltin, short(b.ClientStateHash), b.StateChangesCount)
 	g.Tr.State(fmt.Sprintf("%x", b.ClientStateHash))
 	if nClient == 0 {
 		g.Tr.Probe("block_with_only_builtins")
@@ -448,33 +493,35 @@ func (g *G) round(o roundOpts) {
 	}
 
 	// the block as it was handed to the network
+	c := &cand{gen: gen, b: b}
 	g.mu.Lock()
-	var sentB *block.Block
 	for _, e := range g.sent {
 		if sb, ok := e.(*block.Block); ok && sb.Hash == b.Hash {
-			sentB = sb
+			c.sentB = sb
 		}
 	}
 	g.mu.Unlock()
-	if sentB == nil {
+	if c.sentB == nil {
 		g.violate("generator", "block-not-sent", fmt.Sprintf("round %d: GenerateRoundBlock returned block %s but did not hand it to VerifyBlockSender", rn, b.Hash))
-		return
+		return nil
 	}
-
-	// ---------------- wire ----------------
-	nb, werr := wireBlock(sentB, o.jsonCodec)
+	nb, werr := wireBlock(c.sentB, o.jsonCodec)
 	if werr != nil {
 		g.violate("wire", "block-does-not-decode/"+errCode(werr), fmt.Sprintf("round %d: the generated block does not decode on the receiving side: %v", rn, werr))
-		g.dropOffenders(b, nil)
-		return
+		return nil
 	}
-
-	// ---------------- statement oracles on the block as received ----------------
+	c.nb = nb
 	nv := len(g.Tr.Viol)
-	offenders := g.checkBlock(o, b, nb)
-	blockViol := len(g.Tr.Viol) > nv
+	c.offenders = g.checkBlock(gen, b, nb)
+	c.blockViol = len(g.Tr.Viol) > nv
+	return c
+}
 
-	// ---------------- verifier ----------------
+// verify runs the shipped verifier as miner o.ver on the second chain.
+func (g *G) verify(o roundOpts, rn int64, c *cand) {
+	w := g.W
+	ctx := w.Ctx
+	b, nb := c.b, c.nb
 	vmc := g.become(g.Ver.C, o.ver)
 	vr := g.roundOn(vmc, rn)
 	vmc.SetCurrentRound(rn)
@@ -496,19 +543,19 @@ func (g *G) round(o roundOpts) {
 	bvt, verr := vmc.VerifyRoundBlock(vctx, vr, nb)
 	g.quiesce()
 	if verr != nil {
-		g.Tr.Event("round %d verify ver=%d: FAILED %s", rn, o.ver, errCode(verr))
+		g.Tr.Event("round %d verify gen=%d ver=%d: FAILED %s", rn, c.gen, o.ver, errCode(verr))
 		g.Tr.Outcome("round/verify-failed")
 		switch {
 		case o.verDeadline:
 			g.verFaultErrs++
 			g.Tr.Probe("verify_failed_under_fault")
-		case blockViol:
+		case c.blockViol:
 			// consequence of what the block oracles already reported
 			g.Tr.Probe("verify_failed_after_block_violation:" + errCode(verr))
 		default:
-			g.violate("verifier", "verify-failed/"+errCode(verr), fmt.Sprintf("round %d: block %s built by honest generator %d from the pool is rejected by honest verifier %d holding the same previous state: %v", rn, b.Hash, o.gen, o.ver, verr))
+			g.violate("verifier", "verify-failed/"+errCode(verr), fmt.Sprintf("round %d: block %s built by honest generator %d from the pool is rejected by honest verifier %d holding the same previous state: %v", rn, b.Hash, c.gen, o.ver, verr))
 		}
-		g.dropOffenders(b, offenders)
+		g.dropOffenders(b, c.offenders)
 		return
 	}
 	if bvt == nil || bvt.BlockID != nb.Hash {
@@ -525,7 +572,7 @@ func (g *G) round(o roundOpts) {
 		vroot = nb.ClientState.GetRoot()
 		vchanges = nb.ClientState.GetChangeCount()
 	}
-	g.Tr.Event("round %d verify ver=%d: ok root=%x changes=%d", rn, o.ver, short(vroot), vchanges)
+	g.Tr.Event("round %d verify gen=%d ver=%d: ok root=%x changes=%d", rn, c.gen, o.ver, short(vroot), vchanges)
 	if !bytes.Equal(vroot, b.ClientStateHash) {
 		g.violate("recompute", "root-differs", fmt.Sprintf("round %d: generator root %x, verifier recomputed %x", rn, b.ClientStateHash, vroot))
 	}
@@ -540,19 +587,25 @@ func (g *G) round(o roundOpts) {
 		}
 	}
 	// independent recomputation from a copy that carries no outputs at all
-	g.recompute(o, b, sentB)
+	g.recompute(o, b, c.sentB)
 
-	if blockViol {
+	if c.blockViol {
 		// verification passed although the block breaks the statement: do not adopt it
 		g.Tr.Probe("verified_despite_block_violation")
-		g.dropOffenders(b, offenders)
+		g.dropOffenders(b, c.offenders)
 		return
 	}
+	c.ok = true
+}
 
-	// ---------------- adopt: the sim's "consensus" declares the block notarized ----------------
-	vmc.AddNotarizedBlock(vr, nb)
+// adopt declares the block notarized on both nodes and makes it the head.
+func (g *G) adopt(o roundOpts, rn int64, c *cand) {
+	w := g.W
+	b, nb := c.b, c.nb
+	vmc := g.become(g.Ver.C, o.ver)
+	vmc.AddNotarizedBlock(g.roundOn(vmc, rn), nb)
 	g.quiesce()
-	gmc := g.become(w.C, o.gen)
+	gmc := g.become(w.C, c.gen)
 	gmc.AddNotarizedBlock(g.roundOn(gmc, rn), b)
 	g.quiesce()
 	gb := &genBlock{B: b, V: nb}
@@ -578,6 +631,7 @@ func (g *G) round(o roundOpts) {
 	g.chain = append(g.chain, gb)
 	g.head, g.vhead = b, nb
 	w.Head = b
+	g.Tr.Event("round %d: adopted the block of generator %d", rn, c.gen)
 }
 
 // poolDiff reports what a generation removed from the pool.
@@ -600,6 +654,7 @@ func (g *G) poolDiff(before []string) {
 			if strings.Contains(p.Class, "+lowfee") {
 				g.Tr.Probe("pool_removed_by_generator:lowfee")
 			}
+
 		}
 	}
 	if n > 0 {
@@ -656,7 +711,7 @@ func wireBlock(b *block.Block, json bool) (*block.Block, error) {
 
 // checkBlock evaluates the statement's oracles on the block as received. It
 // returns the hashes of pool transactions that make the block unacceptable.
-func (g *G) checkBlock(o roundOpts, b, nb *block.Block) (offenders []string) {
+func (g *G) checkBlock(gen int, b, nb *block.Block) (offenders []string) {
 	w := g.W
 	rn := b.Round
 	prev := g.head
@@ -665,7 +720,7 @@ func (g *G) checkBlock(o roundOpts, b, nb *block.Block) (offenders []string) {
 	builtin := map[string][]string{} // function name -> senders
 	var cost int
 	lfb := w.C.GetLatestFinalizedBlock()
-	minerID := w.Miners[o.gen].ID
+	minerID := w.Miners[gen].ID
 	for i, t := range nb.Txns {
 		// no transaction twice
 		if j, dup := seen[t.Hash]; dup {
